@@ -140,8 +140,7 @@ func runServerSide(c *hk.Ctx) {
 					Input:    map[string]any{"peers": peers, "per_peer": "initialize, initialized, GET stream, tools/call that blocks until its context ends", "connections_end_by": kind},
 					Observed: map[string]any{"goroutines": libKeys(left), "fds_before": base.FDs, "fds_after": after.FDs}})
 			}
-			ts.CloseClientConnections()
-			ts.Close()
+			bounded(closeCeiling, func() { ts.CloseClientConnections(); ts.Close() }) // httptest's Close waits for the handlers
 		}
 		// ---- legacy SSE server
 		if !leaked["sse"] {
@@ -215,8 +214,7 @@ func runServerSide(c *hk.Ctx) {
 					Input:    map[string]any{"peers": peers, "per_peer": "GET /sse, initialize, initialized, tools/call that blocks until its context ends", "connections_end_by": kind},
 					Observed: map[string]any{"goroutines": libKeys(left), "fds_before": base.FDs, "fds_after": after.FDs}})
 			}
-			ts.CloseClientConnections()
-			ts.Close()
+			bounded(closeCeiling, func() { ts.CloseClientConnections(); ts.Close() }) // httptest's Close waits for the handlers
 		}
 	}
 }
